@@ -13,12 +13,14 @@ package peer
 //@ spec NP(peer *Peer) int
 //@   body int((peer.Pieces.Length() + int64(peer.Pieces.PieceSize()) - 1) / int64(peer.Pieces.PieceSize()))
 
-// PieceOK: the payload of a Piece message is, byte for byte, what the piece
+// PieceVerified/PieceBytes: the payload of a Piece message is, byte for byte, what the piece
 // store holds at (index, begin) in a piece that is complete and verified.
-//@ spec PieceOK(peer *Peer, index uint32, begin uint32, data []byte) bool
+//@ spec PieceVerified(peer *Peer, index uint32, begin uint32, data []byte) bool
 //@   import "github.com/jech/storrent/tor/piece"
-//@   body (len(data) > 0 ==> piece.VerifiedAt(peer.Pieces, int64(index)*int64(peer.Pieces.PieceSize()) + int64(begin))) &&
-//@        (forall k int :: 0 <= k && k < len(data) ==> data[k] == piece.PByte(peer.Pieces, int64(index)*int64(peer.Pieces.PieceSize()) + int64(begin), k))
+//@   body len(data) > 0 ==> piece.VerifiedAt(peer.Pieces, int64(index)*int64(peer.Pieces.PieceSize()) + int64(begin))
+//@ spec PieceBytes(peer *Peer, index uint32, begin uint32, data []byte) bool
+//@   import "github.com/jech/storrent/tor/piece"
+//@   body forall k int :: 0 <= k && k < len(data) ==> data[k] == piece.PByte(peer.Pieces, int64(index)*int64(peer.Pieces.PieceSize()) + int64(begin), k)
 // ReqOK: every upload request accepted from the peer is short (bounded reply buffer).
 //@ spec ReqOK(peer *Peer) bool
 //@   body forall k int :: 0 <= k && k < len(peer.requested) ==> peer.requested[k].Length <= 131072
@@ -35,7 +37,9 @@ package peer
 //@   requires [have]     typeis_[protocol.Have](m) ==> int(as_[protocol.Have](m).Index) < NP(peer)
 //@   requires [ext0]     typeis_[protocol.Extended0](m) && peer.proxy != "" ==> as_[protocol.Extended0](m).Version == "" && as_[protocol.Extended0](m).Port == 0
 //@   requires [port]     typeis_[protocol.Port](m) ==> peer.proxy == ""
-//@   requires [piece]    typeis_[protocol.Piece](m) ==> peer.amUnchoking != 0 && PieceOK(peer, as_[protocol.Piece](m).Index, as_[protocol.Piece](m).Begin, as_[protocol.Piece](m).Data)
+//@   requires [piece]    typeis_[protocol.Piece](m) ==> peer.amUnchoking != 0
+//@   requires [pieceverified] typeis_[protocol.Piece](m) ==> PieceVerified(peer, as_[protocol.Piece](m).Index, as_[protocol.Piece](m).Begin, as_[protocol.Piece](m).Data)
+//@   requires [piecebytes] typeis_[protocol.Piece](m) ==> PieceBytes(peer, as_[protocol.Piece](m).Index, as_[protocol.Piece](m).Begin, as_[protocol.Piece](m).Data)
 //@   modifies peer.writeTime
 //@   props    C11 C16 C18
 
